@@ -212,7 +212,17 @@ impl Ctx {
                 let inner: Vec<Value> = ja(op, "ops").to_vec();
                 self.tl_stack.push(i);
                 let ts = self.sources[i].clone();
-                metrique_timesource::with_time_source(ts, || self.exec(&inner));
+                if jb(op, "panics", false) {
+                    // the closure panics at its end (caught here): the override must be gone afterwards
+                    let _ = std::panic::catch_unwind(std::panic::AssertUnwindSafe(|| {
+                        metrique_timesource::with_time_source(ts, || {
+                            self.exec(&inner);
+                            std::panic::resume_unwind(Box::new("harness: the closure given to with_time_source panics"));
+                        })
+                    }));
+                } else {
+                    metrique_timesource::with_time_source(ts, || self.exec(&inner));
+                }
                 self.tl_stack.pop();
             }
             "rt_enter" => {
@@ -707,7 +717,7 @@ impl Gen18 {
                     self.timed(rng, &mut inner, false);
                 }
                 self.ts.tl.pop();
-                ops.push(json!({"op":"scope","src":src,"ops":inner}));
+                ops.push(json!({"op":"scope","src":src,"ops":inner,"panics":rng.chance(0.3)}));
             }
             4 => {
                 if !self.ts.in_rt {
